@@ -786,7 +786,7 @@ Lemma tstep_ep s t s' : tstep s t = Some s' ->
   (g_rets s' = g_rets s \/ exists a r k, pcof s t = WRet a r k).
 Proof.
   intros H. tstep_cases H; apply ltb_lt in Hlt; norm; unfold pcof; rewrite ?Hpc;
-    cbn [sig_ep pc_caller pik_caller caller_ep]; (split; [intros ep0 E; try discriminate; auto|]); eauto.
+    cbn [sig_ep pc_caller pik_caller caller_ep]; (split; [intros ep0 E; try discriminate; auto; try (inv_some E; auto)|]); eauto.
 Qed.
 
 Definition ep_inv (s : state) : Prop :=
@@ -834,10 +834,10 @@ Lemma destroy_safe_at_return c o ths nv s : reachable (init c o ths nv) s ->
   forall t', (t' < nthreads s)%nat -> sig_ep (pcof s t') = None.
 Proof.
   intros R t a r k Ht Hp t' Ht'. destruct (sp_inv_reachable _ _ _ _ _ R) as [S1 _].
-  destruct (sig_ep (pcof s t')) eqn:E; auto. apply sig_ep_holds in E.
+  destruct (sig_ep (pcof s t')) eqn:E0; auto. pose proof (sig_ep_holds _ _ E0) as E.
   assert (Hy : holds_sp (pcof s t) = true) by (rewrite Hp; reflexivity).
   pose proof (S1 _ Ht Hy). pose proof (S1 _ Ht' E). assert (t = t') by congruence. subst.
-  rewrite Hp in E. destruct (sig_ep (WRet a r k)) eqn:E2; simpl in E2; discriminate.
+  rewrite Hp in E0. simpl in E0. discriminate.
 Qed.
 
 (* ---------------------------------------------------------------------------------------- *)
